@@ -304,7 +304,11 @@ def lazy_then_block():
 
 
 FAMILIES = dict(lazy_then_block=lazy_then_block, bounds=bounds, list_tab=list_tabs, lazy=lazy_lines, fence=fences, atx=atx, setext=setext, indented=indented, html=html_blocks, table=tables, para=paragraphs, hr=breaks)
-CONTEXTS = ['alone', 'then-paragraph', 'after-paragraph', 'in-quote', 'in-list-item', 'then-paragraph-directly']
+CONTEXTS = ['alone', 'then-paragraph', 'after-paragraph', 'in-quote', 'in-list-item', 'then-paragraph-directly',
+            'in-quote-then-text', 'in-list-item-then-text']
+# the last two: the container's last block is a leaf that is not a paragraph, and a line of text without marker / indentation follows
+# directly. There is no paragraph to continue, so the line is not a lazy continuation line: the container ends before it.
+NOT_BEFORE_TEXT = ('para', 'atx-not', 'hr-not', 'table-not', 'table', 'indented-blank')
 
 
 def in_context(case, ctx):
@@ -328,6 +332,13 @@ def in_context(case, ctx):
         return '\n'.join(['before', ''] + lines) + '\n', '<p>before</p>\n' + html, 2
     if fam == 'indented-blank' and ctx == 'in-list-item':
         return None         # the item would hold one paragraph only and stay tight: another template
+    if ctx in ('in-quote-then-text', 'in-list-item-then-text'):
+        if fam in NOT_BEFORE_TEXT or (fam == 'setext' and ctx == 'in-quote-then-text'):
+            return None
+        x = in_context(case, ctx[:-len('-then-text')])
+        if x is None:
+            return None
+        return x[0] + 'after\n', x[1] + '<p>after</p>\n', x[2]
     if ctx == 'in-quote':
         if fam == 'setext' or has_tab or fam == 'indented-tab':
             return None
